@@ -284,6 +284,17 @@ func checkC09(c *Ctx) {
 	})
 	c.states += st.States
 	c.Note(fmt.Sprintf("explicit-state search: %d canonical buffer states, %d transitions, depth %d, closed=%v, frontier cuts=%d (pending bytes capped at %d)", st.States, st.Transitions, st.Depth, st.Closed, st.FrontierCuts, pendingCap))
+	ld := 2
+	if !c.Quick() {
+		ld = 3
+	}
+	stL := bufferBFSFrom(c, "C09/state-large", largeInits(largeSizes(c.Quick())), ld, maxStates, nil, func(s *buffer.Buffer, op *bufOp, s2 *buffer.Buffer, w *Worker) {
+		if d := c09StepInvariant(s, op, s2); d != "" {
+			w.Fail("state-invariant", stateCase{State: s.VerifState(), Op: op.Name}, d)
+		}
+	})
+	c.states += stL.States
+	c.Note(fmt.Sprintf("explicit-state search from large buffers (sizes %v, escaped and pending): %d states, %d transitions, depth %d", largeSizes(c.Quick()), stL.States, stL.Transitions, stL.Depth))
 	c.Assume("state canonicalisation: every Buffer method reads only mode, markerOpen, the unescaped suffix, the last 4 bytes of the escaped prefix, emptiness and spare capacity; the un-merged sequence enumeration is run as well so a wrong merge can only lose coverage")
 	c.Assume("Print/Printf ops are modelled by the library's own top-level Sprint/Sprintf of the same arguments (route agreement is C16)")
 }
